@@ -67,6 +67,9 @@ def val_axioms():
         # data ids are ints or strs: == on them is identity of value (no two distinct equal ids)
         ForAll([a, b], Implies(And(Or(v_is_int(a), v_is_str(a)), Or(v_is_int(b), v_is_str(b)), v_eq(a, b)), a == b), patterns=[v_eq(a, b)]),
         ForAll([a], v_is_int(v_hash(a)), patterns=[v_hash(a)]),
+        # sentinels / class objects / None compare by identity
+        ForAll([a], Implies(v_eq(a, ANY_KIND), a == ANY_KIND), patterns=[v_eq(a, ANY_KIND)]),
+        ForAll([a], Implies(v_eq(a, VNONE), a == VNONE), patterns=[v_eq(a, VNONE)]),
         Not(v_truthy(VNONE)), Not(v_is_int(VNONE)), Not(v_is_str(VNONE)),
         v_int(0) != VNONE,
         V_TRUE == v_int(1), V_FALSE == v_int(0),  # bool is a subclass of int
